@@ -21,7 +21,7 @@ func init() {
 		Level: "exploration",
 		Rule: "cases = operation sequences (1-10 ops of Packetize / SkipSamples / GeneratePadding) on one packetizer over MTUs {64, 65, 100, 576, 1200, 1500, " +
 			"65535, random >= 64}, all eight real payloaders behind a recording wrapper plus a synthetic payloader that fills its budget exactly, fixed and " +
-			"random sequencers (start values next to the 16-bit wrap), sample counts {0, 1, 2^31, 2^32-1, random}, abs-send-time off or id 1-14 with an injected " +
+			"random sequencers (start values next to the 16-bit wrap; a fifth each caller-supplied and wrapped Sequencer implementations), sample counts {0, 1, 2^31, 2^32-1, random}, abs-send-time off or id 1-14 with an injected " +
 			"clock at adversarial instants; every returned packet is compared with a shadow model of the train; a small race-build phase shares one sequencer " +
 			"between two packetizers; non-trivial = a sequence with at least one Packetize call that produced >= 2 packets or any GeneratePadding call; " +
 			"distinct = (payloader, MTU class, abs-send-time, op-kind sequence prefix, fragment-count class)",
